@@ -85,7 +85,8 @@ fn dur_alphabet(tier: Tier) -> Vec<DurCase> {
         let _ = tier;
         v
     };
-    let times: Vec<i128> = vec![0, 1, 24 * H - 1, 24 * H, 24 * H + 1, 36 * H, 100_000 * H, (1i128 << 53) - 1];
+    // the last four: day carries at and beyond the 32-bit thresholds (2^31, 2^32 days; the duration limit is 2^53 s ~ 1.04e11 days)
+    let times: Vec<i128> = vec![0, 1, 24 * H - 1, 24 * H, 24 * H + 1, 36 * H, 100_000 * H, (1i128 << 53) - 1, (1i128 << 31) * 24 * H, (1i128 << 32) * 24 * H, ((1i128 << 32) + 1) * 24 * H + 1, 3 * (1i128 << 32) * 24 * H + 12 * H];
     let mut out = vec![];
     for sign in [1i64, -1] {
         for (y, m, w, d) in &dates {
